@@ -79,7 +79,9 @@ func (d DirCache) Put(ctx context.Context, name string, data []byte) error {
 		defer os.Remove(tmp)
 		select {
 		case <-ctx.Done():
-			// Don't overwrite the file if the context was canceled.
+			// Don't overwrite the file if the context was canceled,
+			// and don't report success for data that was not stored.
+			err = ctx.Err()
 		default:
 			newName := filepath.Join(string(d), filepath.Clean("/"+name))
 			err = os.Rename(tmp, newName)
